@@ -10,8 +10,10 @@ import (
 	"fmt"
 	"io"
 	"math/rand"
+	"mime"
 	"net/http"
 	"net/http/httptest"
+	"net/url"
 	"reflect"
 	"regexp"
 	"sort"
@@ -135,6 +137,15 @@ type c02HCall struct {
 	BindOK   bool     `json:"bind_ok"`
 	Via      string   `json:"via"` // serve | authorize
 	Hdrs     []c02Hdr `json:"hdrs,omitempty"`
+	// Shape of the request entity. 0 = a JSON body with Content-Type application/json. 1 = NO body and the
+	// Content-Type header Ct (absent when empty; possibly malformed: nothing in the stack has a reason to read it).
+	// 2 / 3 = a urlencoded / multipart form body holding the fields Form (only sent with POST, PUT, PATCH; with
+	// another method the request is sent as shape 1). A form field access_token is where a bearer scheme looks
+	// last (RFC 6750 2.2); every other field, the extra query XQ and extra headers named like a key are decoys.
+	Shape int      `json:"shape,omitempty"`
+	Ct    string   `json:"ct,omitempty"`
+	Form  []c02Hdr `json:"form,omitempty"`
+	XQ    string   `json:"xq,omitempty"` // appended to the query string, e.g. "&X-K2=t1"
 }
 
 type c02Hist struct {
@@ -202,6 +213,9 @@ func (c02) Rule() string {
 		"with only one of the pair registered. One generated case in nine is a HISTORY: 2-4 operations (same path, different methods) on one api instance whose six schemes " +
 		"are checked by security.BearerAuth/BearerAuthCtx/APIKeyAuth/APIKeyAuthCtx/BasicAuth/BasicAuthCtx over a grants table (bearer callbacks check the required scopes), " +
 		"2-5 requests mostly presenting the same credential to operations requiring different scopes, each also served by a fresh instance. " +
+		"About half of the calls of a history vary the request ENTITY: no body with an absent, unusual or unparsable Content-Type (application/json; charset, text/plain; =x, ;, a/b/c ...), or a urlencoded / multipart " +
+		"form body (POST PUT PATCH; the operations consume the form types) whose fields, like an extra query parameter or header, are named after the credential parameters (k3, X-K2, access_token, Authorization) " +
+		"while the credential is missing from - or rejected in - its proper place: only a bearer scheme may read the form field access_token, and only when header and query hold no token; one history in four probes the focus scheme this way in every call. " +
 		"Non-trivial: at least one authenticator was called and the structure has >=2 schemes or >=2 alternatives; history: authenticators were asked in >=2 requests."
 }
 
@@ -1192,7 +1206,7 @@ func c02HDoc(h *c02Hist) *loads.Document {
 	}
 	doc := map[string]any{
 		"swagger": "2.0", "info": map[string]any{"title": "t", "version": "1"},
-		"consumes": []string{"application/json"}, "produces": []string{"application/json"},
+		"consumes": []string{"application/json", c02FormURL, c02FormMulti}, "produces": []string{"application/json"},
 		"securityDefinitions": defs, "paths": paths,
 	}
 	raw, _ := json.Marshal(doc)
@@ -1207,6 +1221,13 @@ func c02HBuild(h *c02Hist, spec *loads.Document) *c02Built {
 	env := &c02Env{deny: h.Deny}
 	api := untyped.NewAPI(spec)
 	c02Instrument(api, env)
+	for _, mt := range []string{c02FormURL, c02FormMulti} {
+		api.RegisterConsumer(mt, runtime.ConsumerFunc(func(rd io.Reader, _ interface{}) error {
+			env.bind()
+			_, _ = io.Copy(io.Discard, rd)
+			return nil
+		}))
+	}
 	lookup := func(s int, cred string, required []string, scoped bool) (interface{}, error) {
 		id := -1
 		if len(cred) > 1 {
@@ -1295,10 +1316,24 @@ func c02HBuild(h *c02Hist, spec *loads.Document) *c02Built {
 func c02HTok(id int) string { return "t" + strconv.Itoa(id) }
 
 // c02HCreds is what the request of a call carries per scheme (scheme, token id), as the model sees it.
-func c02HCreds(c c02HCall) [][2]int {
+func c02HCreds(method string, c c02HCall) [][2]int {
 	var out [][2]int
 	if c.Bearer != nil {
 		out = append(out, [2]int{0, *c.Bearer}, [2]int{1, *c.Bearer})
+	} else if c02HasForm(method, c) {
+		// no token in the Authorization header nor in the query: the first access_token field of a form body
+		for _, f := range c.Form {
+			if f.N == accessTokenField {
+				if f.V != "" {
+					id := 99 // not a token the grants table can know
+					if len(f.V) > 1 {
+						id = c02ParseID(f.V)
+					}
+					out = append(out, [2]int{0, id}, [2]int{1, id})
+				}
+				break
+			}
+		}
 	}
 	if c.Key2 != nil {
 		out = append(out, [2]int{2, *c.Key2})
@@ -1312,9 +1347,57 @@ func c02HCreds(c c02HCall) [][2]int {
 	return out
 }
 
+const (
+	c02FormURL       = "application/x-www-form-urlencoded"
+	c02FormMulti     = "multipart/form-data"
+	accessTokenField = "access_token"
+	c02Boundary      = "c02boundary"
+)
+
+// c02HasForm: the call is sent with a form body (shapes 2 and 3 under a method whose body net/http parses as a form).
+func c02HasForm(method string, c c02HCall) bool {
+	return (c.Shape == 2 || c.Shape == 3) && (method == "POST" || method == "PUT" || method == "PATCH")
+}
+
+// c02HEntity replaces the JSON entity of the request by what the call's shape asks for.
+func c02HEntity(req *http.Request, c c02HCall) {
+	if c.Shape == 0 {
+		return
+	}
+	var body []byte
+	ct := c.Ct
+	if c02HasForm(req.Method, c) {
+		if c.Shape == 2 {
+			ct = c02FormURL
+			for i, f := range c.Form {
+				if i > 0 {
+					body = append(body, '&')
+				}
+				body = append(body, (url.QueryEscape(f.N) + "=" + url.QueryEscape(f.V))...)
+			}
+		} else {
+			ct = c02FormMulti + "; boundary=" + c02Boundary
+			for _, f := range c.Form {
+				body = append(body, ("--" + c02Boundary + "\r\nContent-Disposition: form-data; name=\"" + f.N + "\"\r\n\r\n" + f.V + "\r\n")...)
+			}
+			body = append(body, ("--" + c02Boundary + "--\r\n")...)
+		}
+	}
+	if len(body) == 0 {
+		req.Body, req.ContentLength = http.NoBody, 0
+	} else {
+		req.Body, req.ContentLength = io.NopCloser(bytes.NewReader(body)), int64(len(body))
+	}
+	if ct == "" {
+		req.Header.Del("Content-Type")
+	} else {
+		req.Header.Set("Content-Type", ct)
+	}
+}
+
 func c02HRequest(h *c02Hist, c c02HCall) *http.Request {
 	op := h.Ops[c.Op]
-	q := ""
+	q := c.XQ
 	if c.Key3 != nil {
 		q += "&k3=" + c02HTok(*c.Key3)
 	}
@@ -1323,6 +1406,7 @@ func c02HRequest(h *c02Hist, c c02HCall) *http.Request {
 		q += "&access_token=" + c02HTok(*c.Bearer)
 	}
 	req := c02NewRequest(op.Method, op.Path, c.BindOK, q, c.Hdrs)
+	c02HEntity(req, c)
 	if c.Bearer != nil && !bearerQuery {
 		req.Header.Set("Authorization", "Bearer "+c02HTok(*c.Bearer))
 	}
@@ -1486,7 +1570,11 @@ func c02CoqHist(h *c02Hist, obs c02Obs) string {
 		} else {
 			o = c02HObs{Tr: []c02Ev{{K: "panic"}}, FTr: []c02Ev{{K: "panic"}}, Kind: "panic", FKind: "panic"}
 		}
-		creds := coqList(c02HCreds(c), func(p [2]int) string { return fmt.Sprintf("(%d, %d)", p[0], p[1]) })
+		method := ""
+		if c.Op >= 0 && c.Op < len(h.Ops) {
+			method = h.Ops[c.Op].Method
+		}
+		creds := coqList(c02HCreds(method, c), func(p [2]int) string { return fmt.Sprintf("(%d, %d)", p[0], p[1]) })
 		head := c.Op >= 0 && c.Op < len(h.Ops) && h.Ops[c.Op].Method == "HEAD"
 		return fmt.Sprintf("mk_hcall %d %s %s %s %s %s %s %s %s %s", c.Op, creds, coqBool(c.BindOK), coqBool(c02FmtOK(c.Hdrs)), coqBool(c.Via == "authorize"), coqBool(head),
 			c02CoqTrace(o.Tr), c02CoqAuthz(o.Kind, o.Usr, o.Sc, o.Err), c02CoqTrace(o.FTr), c02CoqAuthz(o.FKind, o.FUsr, o.FSc, o.FErr))
@@ -1645,7 +1733,7 @@ func c02GenHist(r *rand.Rand) c02In {
 	methods := []string{"GET", "POST", "DELETE", "PUT", "OPTIONS", "HEAD", "PATCH"}
 	perm := r.Perm(len(methods))
 	nops := 2 + r.Intn(3)
-	focus := []int{0, 0, 0, 1, 1, 1, 2, 3, 4, 5}[r.Intn(10)]
+	focus := []int{0, 0, 0, 1, 1, 1, 2, 3, 4, 5, 3, 2}[r.Intn(12)]
 	scoped := focus <= 1
 	for i := 0; i < nops; i++ {
 		op := c02HOp{Method: methods[perm[i]], Path: "/x"}
@@ -1745,6 +1833,7 @@ func c02GenHist(r *rand.Rand) c02In {
 		}
 	}
 	ncalls := 2 + r.Intn(4)
+	probe := r.Intn(4) == 0 // a history that probes WHERE the focus scheme looks for its credential
 	order := r.Perm(nops)
 	set := func(c *c02HCall, scheme, tok int) {
 		t := tok
@@ -1784,9 +1873,97 @@ func c02GenHist(r *rand.Rand) c02In {
 			c.BearerIn = "query"
 		}
 		c.Hdrs = c02HdrsFor(r.Intn(1 << 24))
+		c02GenShape(r, h, &c, focus, ft, probe)
 		h.Calls = append(h.Calls, c)
 	}
 	return c02In{Hist: h}
+}
+
+// Content-Type values of body-less requests: well-formed ones, and ones mime.ParseMediaType refuses.
+var c02CtPool = []string{
+	"", "application/json", "text/plain", c02FormURL, c02FormMulti + "; boundary=" + c02Boundary, c02FormMulti, "application/octet-stream",
+	"application/json; charset", "text/plain; =x", ";", "application/json;;", "a/b/c", "application/json; charset=\"utf-8", "text/html; charset=utf-8; charset=latin1", "/", "application/x-www-form-urlencoded; q",
+}
+
+// where each scheme kind looks for its credential, as a parameter name (decoys are put elsewhere under that name)
+var c02CredNames = []string{accessTokenField, accessTokenField, "X-K2", "k3", "Authorization", "Authorization"}
+
+// c02GenShape draws the entity shape of a call and decoy credentials: values placed where the scheme concerned
+// does NOT look (a query api key in a form field or a header, a header api key in the query or a form field, a
+// bearer token in a header named access_token) - except the form field access_token, which a bearer scheme does
+// read when neither the Authorization header nor the query has a token. Half of the shaped calls lose the focus
+// credential from its proper place, so that only the decoy (or nothing) is left.
+func c02GenShape(r *rand.Rand, h *c02Hist, c *c02HCall, focus, ft int, probe bool) {
+	x := r.Intn(20)
+	if probe {
+		x = 9 + x%11
+	}
+	if x < 9 {
+		return
+	}
+	tok := func() string {
+		if r.Intn(3) != 0 {
+			return c02HTok(ft)
+		}
+		return c02HTok(1 + r.Intn(3))
+	}
+	if y := r.Intn(6); probe && y >= 4 {
+		// the proper place holds a credential the scheme rejects (or another one), the decoy the good one
+		bad := 1 + (ft+r.Intn(2))%3
+		switch focus {
+		case 0, 1:
+			c.Bearer = &bad
+		case 2:
+			c.Key2 = &bad
+		case 3:
+			c.Key3 = &bad
+		default:
+			c.Basic = &bad
+		}
+	} else if y < 3 || probe {
+		switch focus {
+		case 0, 1:
+			c.Bearer, c.BearerIn = nil, ""
+		case 2:
+			c.Key2 = nil
+		case 3:
+			c.Key3 = nil
+		default:
+			c.Basic = nil
+		}
+	}
+	m := h.Ops[c.Op].Method
+	if x < 14 && !(x >= 11 && (m == "POST" || m == "PUT" || m == "PATCH")) {
+		c.Shape = 1
+		c.Ct = c02CtPool[r.Intn(len(c02CtPool))]
+	} else {
+		c.Shape = 2 + r.Intn(2)
+		c.Ct = c02CtPool[r.Intn(len(c02CtPool))] // used when the method carries no form
+		n := 1 + r.Intn(3)
+		for j := 0; j < n; j++ {
+			name := c02CredNames[focus]
+			if j > 0 || (!probe && r.Intn(3) == 0) {
+				name = []string{accessTokenField, "X-K2", "k3", "n", "f", "Authorization", "x-k2", "K3"}[r.Intn(8)]
+			}
+			v := tok()
+			if name == "n" {
+				v = "7"
+			}
+			c.Form = append(c.Form, c02Hdr{name, v})
+		}
+	}
+	z := r.Intn(6)
+	if probe && z >= 3 && focus <= 3 {
+		z = []int{2, 2, 0, 1}[focus]
+	}
+	switch z {
+	case 0:
+		c.XQ = "&X-K2=" + tok()
+	case 1:
+		c.Hdrs = append(c.Hdrs, c02Hdr{"k3", tok()})
+	case 2:
+		c.Hdrs = append(c.Hdrs, c02Hdr{"Access_token", tok()})
+	}
 }
 
 func c02HistCategory(h *c02Hist, obs c02Obs) (string, bool) {
@@ -1837,5 +2014,33 @@ func c02HistCategory(h *c02Hist, obs c02Obs) (string, bool) {
 			}
 		}
 	}
-	return fmt.Sprintf("hist/%dops/%dcalls/h%d/%s/%s", len(h.Ops), len(h.Calls), focus, az, mix), asked >= 2
+	shape := ""
+	seen := map[string]bool{}
+	for _, c := range h.Calls {
+		lbl := ""
+		method := ""
+		if c.Op >= 0 && c.Op < len(h.Ops) {
+			method = h.Ops[c.Op].Method
+		}
+		switch {
+		case c02HasForm(method, c):
+			lbl = "+form"
+		case c.Shape != 0:
+			lbl = "+nobody"
+			if c.Ct != "" {
+				if _, _, err := mime.ParseMediaType(c.Ct); err != nil {
+					lbl = "+badct"
+				}
+			}
+		}
+		if lbl != "" && !seen[lbl] {
+			seen[lbl] = true
+		}
+	}
+	for _, l := range []string{"+form", "+nobody", "+badct"} {
+		if seen[l] {
+			shape += l
+		}
+	}
+	return fmt.Sprintf("hist/%dops/%dcalls/h%d/%s/%s%s", len(h.Ops), len(h.Calls), focus, az, mix, shape), asked >= 2
 }
